@@ -299,6 +299,81 @@ def read_tables():
     return json.loads(p.stdout)
 
 
+# ------------------------------------------------------------------ context shape / size (wrapc.set_fmt_fields)
+# `c_array_shape` and `c_array_size` are computed by code, not by a table: the real pipeline is run on probe
+# declarations with +dimension(n), (n,m), (n,m,k) for a result and for a `**` intent(out) argument, and the text
+# substituted into `{c_var_context}->rank = {rank};{c_array_shape}` / `->size = {c_array_size}` is parsed into
+#   (rank, [(shape index, position of the dimension name in the declared list)], [shape indices multiplied for size])
+_PROBE_YAML = """library: probe
+cxx_header: probe.h
+language: c
+options: {wrap_python: false, wrap_lua: false}
+declarations:
+- decl: int *r1(int n) +dimension(n)+deref(allocatable)
+- decl: int *r2(int n, int m) +dimension(n,m)+deref(allocatable)
+- decl: int *r3(int n, int m, int k) +dimension(n,m,k)+deref(pointer)
+- decl: void p2(int n, int m, int **p +intent(out)+dimension(n,m))
+- decl: void p3(int n, int m, int k, int **p +intent(out)+dimension(n,m,k))
+"""
+
+_PROBE = r"""
+import argparse, json, os, sys, io, contextlib
+from shroud import main as smain
+d = sys.argv[1]
+y = os.path.join(d, "probe.yaml")
+a = argparse.Namespace(cmake="", cfiles="", ffiles="", filename=[y], logdir=d, outdir=d, outdir_c_fortran="", outdir_lua="",
+                       outdir_python="", outdir_yaml="", path=[d], write_helpers="", write_statements="", yaml_types="",
+                       write_version=False, option=[], language=None)
+with contextlib.redirect_stdout(io.StringIO()):
+    cfg = smain.main_with_args(a)
+cfg.log.close()
+j = json.load(open(os.path.join(d, "probe.json")))
+out = []
+for f in j["library"]["functions"]:
+    if f.get("_generated") != "arg_to_buffer":
+        continue
+    name = f["ast"]["declarator"]["name"]
+    fc = f["_fmtresult"]["fmtc"] if name.startswith("r") else f["_fmtargs"]["p"]["fmtc"]
+    out.append([name, fc.get("rank"), fc.get("c_array_shape"), fc.get("c_array_size"), fc.get("c_var_context")])
+json.dump(out, sys.stdout)
+"""
+
+
+def read_ctx_probe():
+    d = common.scratch("shroudverif-probe-")
+    try:
+        with open(os.path.join(d, "probe.yaml"), "w") as f:
+            f.write(_PROBE_YAML)
+        e = dict(os.environ, PYTHONPATH=common.REPO, PYTHONDONTWRITEBYTECODE="1")
+        p = subprocess.run([sys.executable, "-c", _PROBE, d], stdout=subprocess.PIPE, stderr=subprocess.PIPE, text=True, env=e)
+        if p.returncode:
+            raise TranslatorError("context shape probe failed: " + p.stderr[-1500:])
+        data = json.loads(p.stdout.strip().split("\n")[-1])
+    finally:
+        common.rmtree(d)
+    rows = []
+    dims = {"n": 0, "m": 1, "k": 2}
+    for name, rank, shape, size, ctxname in data:
+        if rank is None or shape is None or size is None:
+            raise TranslatorError("context shape probe %s: rank/c_array_shape/c_array_size missing" % name)
+        assigns = []
+        for line in [l for l in shape.split("\n") if l.strip()]:
+            m = re.fullmatch(re.escape(ctxname) + r"->shape\[(\d+)\] = (\w+);", line.strip())
+            if not m or m.group(2) not in dims:
+                raise TranslatorError("context shape probe %s: cannot parse %r" % (name, line))
+            assigns.append((int(m.group(1)), dims[m.group(2)]))
+        factors = []
+        for part in size.replace("\t", "").split("*"):
+            m = re.fullmatch(re.escape(ctxname) + r"->shape\[(\d+)\]", part.strip())
+            if not m:
+                raise TranslatorError("context shape probe %s: cannot parse size %r" % (name, size))
+            factors.append(int(m.group(1)))
+        rows.append((0 if name.startswith("r") else 1, int(rank), assigns, factors))
+    if len(rows) != 5:
+        raise TranslatorError("context shape probe: expected 5 bufferify clones, got %d" % len(rows))
+    return rows
+
+
 def part_ids(rows):
     extra = sorted({p for r in rows for p in r["key"].split("_")} - set(PARTS))
     ids = dict(PARTS)
@@ -344,7 +419,7 @@ def _ops(ops):
     return "[" + ", ".join("(%d, %s)" % (c, _nl(v)) for c, v in ops) + "]"
 
 
-def render(tabs):
+def render(tabs, probe=()):
     ids, extra = part_ids(tabs["c"] + tabs["cxx"])
     L = ["/- GENERATED by tools/extract_fstmts.py from statements.fc_statements of the /repo working tree.",
          "   Do not edit.  Encoding: see the docstring of the translator. -/",
@@ -364,6 +439,11 @@ def render(tabs):
     L.append("/-- key names in the order of `rowsCxx` (messages only) -/")
     L.append("def rowNames : List String := [" + ", ".join('"%s"' % r["key"] for r in tabs["cxx"]) + "]")
     L.append("")
+    L.append("/-- wrapc.set_fmt_fields on probe declarations +dimension(n) / (n,m) / (n,m,k): (0 result | 1 `**` out argument,")
+    L.append("    rank, [(shape index, position of the dimension in the declared list)], [shape indices multiplied into size]) -/")
+    L.append("def ctxProbe : List (Nat × Nat × List (Nat × Nat) × List Nat) := [" + ", ".join(
+        "(%d, %d, [%s], %s)" % (k, r, ", ".join("(%d, %d)" % a for a in asg), _nl(fac)) for k, r, asg, fac in probe) + "]")
+    L.append("")
     L.append("/-- parts outside the fixed interning table (ids 200, 201, ...) -/")
     L.append("def extraParts : List String := [" + ", ".join('"%s"' % p for p in extra) + "]")
     L += ["", "end Shroud.Gen.FStmts"]
@@ -372,7 +452,8 @@ def render(tabs):
 
 def regenerate():
     tabs = read_tables()
-    text, ids = render(tabs)
+    probe = read_ctx_probe()
+    text, ids = render(tabs, probe)
     changed = write_if_changed(GEN, text)
     nlines = len({norm(l) for lang in tabs for r in tabs[lang] for cl in CLAUSE for l in (r.get(cl) or [])})
     return {"rows_c": len(tabs["c"]), "rows_cxx": len(tabs["cxx"]), "distinct_template_lines": nlines,
